@@ -321,6 +321,14 @@ class NullAnalysis:
         if any(s2 not in b.cfg.can_return for s2 in b.cfg.succ[bb]):
             return      # assertion (one side only panics): exists in one configuration only, never refine on it
         d = strip(b.switch_discr[bb])
+        if d.kind != 'bin' and (d.ty == 'u32' or t.get('dty') == 'u32') and self.EMPTY is not None:
+            # `match index { EMPTY_REF => .., i => .. }`: a switch on the value itself
+            listed = [val for val, _ in t['targets']]
+            if self.EMPTY in listed:
+                empty_target = [tb for val, tb in t['targets'] if val == self.EMPTY][0]
+                if succ != empty_target:
+                    self.learn(d, vals, heap, alias)
+            return
         if d.kind != 'bin' or d.args[0] not in ('Eq', 'Ne'):
             return
         if is_debug_assert(d.span):
